@@ -13,6 +13,7 @@ import (
 
 	_ "github.com/basecomplextech/spec/mpx"
 	_ "github.com/basecomplextech/spec/rpc"
+	_ "github.com/basecomplextech/spec/zzverif/c18w"
 	"github.com/basecomplextech/spec/zzverif/vexp"
 	"github.com/basecomplextech/spec/zzverif/vsched"
 )
